@@ -51,6 +51,11 @@ func SleepContext(ctx context.Context, d time.Duration) error {
 		t.Stop()
 		return ctx.Err()
 	case <-t.C:
+		// If this goroutine was slow to get here, ctx may have ended during the sleep as well, and
+		// the choice between two ready cases is random: the context wins.
+		if err := ctx.Err(); err != nil {
+			return err
+		}
 		return nil
 	}
 }
